@@ -135,6 +135,9 @@ def classify(outcomes, res, prop):
             v = att.get("verdict")
             if v is None:
                 continue
+            if core.interpreter_limit(str(att["obs"]), att["par"]):
+                res.extra["skipped_at_the_interpreters_recursion_limit"] = res.extra.get("skipped_at_the_interpreters_recursion_limit", 0) + 1
+                continue
             if prop in v["violated"]:
                 res.violation({"property": prop, "module": "resolver", "config": out["config"]["name"], "variant": att["variant"],
                                "why": "observed result violates %s (judged by TLC): path %r" % (prop, att["obs"].get("path")),
